@@ -73,6 +73,11 @@ Check (C11_same_across_slice_and_stream :
   | _, _ => False
   end).
 
+Check (C11_same_across_str_and_slice :
+  forall ro alpha fast std_parse (inp : list event),
+  (exists l c, datum_from_trait ro alpha fast std_parse SrcSlice inp = PErr (XErr (ESyntax InvalidUnicodeCodePoint l c))) \/
+  datum_from_trait ro alpha fast std_parse SrcStr inp = datum_from_trait ro alpha fast std_parse SrcSlice inp).
+
 Check (C11_quote_head :
   forall ro alpha fast std_parse f s b r1 dd s',
   parse_whitespace f (rd s) = (Ok (Some b), r1) -> b = 39 \/ b = 96 \/ b = 44 ->
